@@ -1097,6 +1097,9 @@ func (m *lMachine) c07Invariants(i int, when string) {
 // ---- running ----
 
 func (m *lMachine) finish() {
+	for _, k := range sortedKeys(m.c.HandlerPanics) {
+		m.r.ClassN("handler-panic:"+k, m.c.HandlerPanics[k])
+	}
 	delete(lSeen, m)
 	r := m.r
 	for k, n := range m.ok {
